@@ -87,6 +87,12 @@ PollOutcome(c) ==
           /\ tokens' = (IF HasBudget THEN tokens - Cost ELSE tokens) /\ blim' = blim
           /\ ev' = [e |-> "poll", c |-> c, t |-> now, res |-> "pending", ns |-> 0, nd |-> 1] @@ Bal(IF HasBudget THEN tokens - Cost ELSE tokens)
   /\ UNCHANGED <<cfg, now, key, gout, gid, ngate>>
+\* the attempt is polled inside the request's own future, so its panic is the request's (in-situ runs; C05's own runs
+\* inject no panics): no further attempt, no budget movement
+PollPanic(c) ==
+  /\ st[c] = "calling" /\ gout[c] = "panic" /\ st' = [st EXCEPT ![c] = "done"]
+  /\ ev' = [e |-> "poll", c |-> c, t |-> now, res |-> "panic", ns |-> 0, nd |-> 1] @@ Bal(tokens)
+  /\ UNCHANGED <<cfg, now, key, attempt, until, untilHi, gout, gid, ngate, tokens, blim>>
 PollStutter(c) ==
   /\ \/ (st[c] = "calling" /\ gout[c] = "pending")
      \/ st[c] = "created"                          \* an extra suspension point before the first attempt (Advance still needs it started)
@@ -103,7 +109,7 @@ Advance(d) ==
   /\ d > 0 /\ Quiescent /\ \A c \in Callers : st[c] = "sleeping" => now + d <= untilHi[c]
   /\ now' = now + d /\ ev' = [e |-> "advance", d |-> d, t |-> now + d] @@ Bal(tokens)
   /\ UNCHANGED <<cfg, st, key, attempt, until, untilHi, gout, gid, ngate, tokens, blim>>
-PollAny(c) == PollAttempt(c) \/ PollOutcome(c) \/ PollStutter(c)
+PollAny(c) == PollAttempt(c) \/ PollOutcome(c) \/ PollStutter(c) \/ PollPanic(c)
 Next ==
   \/ \E c \in Callers : (\E k \in Keys : Create(c, k)) \/ PollAttempt(c) \/ PollOutcome(c)
   \/ \E c \in Callers, o \in Outs : Complete(c, o)
